@@ -329,15 +329,20 @@ doTranslate(int back, char **tok, int ntok) {
 	if (argmask & 1) {
 		widechar *tf;
 		int tn = parseWide(tok[7], &tf);
-		typeform = calloc(n, sizeof(formtype));
-		for (i = 0; i < tn && i < n; i++) typeform[i] = tf[i];
+		/* back-translation: typeform and spacing are outputs of exactly outlen elements */
+		int tsz = back ? (outcap > 0 ? outcap : 0) : n;
+		typeform = malloc(tsz * sizeof(formtype));
+		memset(typeform, 0, tsz * sizeof(formtype));
+		for (i = 0; i < tn && i < tsz; i++) typeform[i] = tf[i];
 		free(tf);
 	}
 	if (argmask & 2) {
 		unsigned char *sp;
 		int sn = parseBytes(tok[8], &sp);
-		spacing = calloc(n + 1, 1);
-		for (i = 0; i < sn && i < n + 1; i++) spacing[i] = (char)sp[i];
+		int ssz = back ? (outcap > 0 ? outcap : 0) : n + 1;
+		spacing = malloc(ssz);
+		memset(spacing, 0, ssz);
+		for (i = 0; i < sn && i < ssz; i++) spacing[i] = (char)sp[i];
 		free(sp);
 	}
 	if (argmask & 4) {
@@ -404,7 +409,8 @@ doTranslate(int back, char **tok, int ntok) {
 			printf("-");
 		printf(" sp=");
 		if (spacing)
-			printBytesHex((unsigned char *)spacing, (int)strnlen(spacing, n + 1));
+			printBytesHex((unsigned char *)spacing,
+					(int)strnlen(spacing, back ? (outcap > 0 ? outcap : 0) : n + 1));
 		else
 			printf("-");
 		printf(" op=");
